@@ -2,7 +2,7 @@
    Directives: ExtrOcamlBasic only (bool, option, list, prod, unit, sumbool -> OCaml natives);
    N, Z, positive stay Coq datatypes. *)
 From Coq Require Extraction ExtrOcamlBasic.
-From Schwifty Require Import Lib.Base Lib.Regex Model.Clean Model.Data Model.Iban Model.Bic Model.Bban Model.Registry Model.Lookup Model.National Model.Algorithms Model.Germany Lib.Json.
+From Schwifty Require Import Lib.Base Lib.Regex Model.Clean Model.Data Model.Iban Model.Bic Model.Bban Model.Registry Model.Lookup Model.National Model.Algorithms Model.Germany Model.Random Lib.Json.
 From Schwifty Require Import Gen.Env Gen.IbanData Gen.IbanCfg Gen.BicCfg Gen.ChecksumCfg Gen.GermanyTbl.
 From Schwifty Require Import Spec.Iso13616 Spec.Iso9362 Spec.Defects Spec.RegistrySpec Spec.NationalPublished Spec.Bundesbank.
 From Coq Require Import String Ascii.
@@ -99,6 +99,13 @@ Definition s_wf_bank (en : entry) : bool := wf_bank the_table iso3166 en.
 Definition s_wf_country (cc : text) : bool :=
   match find_row the_table cc with Some r => wf_country r | None => false end.
 
+Definition x_random_bban (R : banks) :=
+  random_bban the_env (ic_components the_iban_cfg) the_table x_find_algo R.
+Definition x_random_iban (R : banks) (cc0 : text) (use_registry : bool) (pins : list (text * text))
+                         (ci bi : nat) (draws : list text) : outcome text :=
+  do cb <- x_random_bban R cc0 use_registry pins ci bi draws;
+  x_iban_from_bban R (fst cb) (snd cb) false false.
+
 Fixpoint t2s (t : text) : string :=
   match t with [] => EmptyString | c :: r => String (ascii_of_N c) (t2s r) end.
 (* verdict of the Bundesbank spec on a ten-character account; None: not ten ASCII digits / method not in the spec *)
@@ -109,7 +116,7 @@ Definition s_bb (m : text) (account : text) : option bool :=
 Extraction Language OCaml.
 Set Extraction KeepSingleton.
 Extraction "extract/model.ml"
-  x_clean x_iban_new x_iban_validate x_iban_is_valid x_iban_from_bban x_iban_formatted x_national x_from_components x_generate s_published_ok s_has_published x_algo_validate x_algo_compute s_bb
+  x_clean x_iban_new x_iban_validate x_iban_is_valid x_iban_from_bban x_iban_formatted x_national x_from_components x_generate s_published_ok s_has_published x_algo_validate x_algo_compute s_bb x_random_bban x_random_iban
   x_pat_apply x_chars_pat x_chars_method x_format_method x_row_regex
   s_iso_ok s_check_digits s_conforms
   x_bic_new x_bic_validate x_bic_is_valid x_bic_formatted x_bic_parts x_bic_pat s_iso9362_ok s_iban_verdict s_bic_verdict
